@@ -17,8 +17,10 @@ import (
 	"io/ioutil"
 	"os"
 	"path/filepath"
+	"runtime"
 	"sort"
 	"strings"
+	"time"
 
 	"github.com/youchainhq/go-youchain/common"
 	"github.com/youchainhq/go-youchain/consensus"
@@ -99,7 +101,7 @@ func classifyErr(err error) int {
 		strings.HasPrefix(m, "invalid receipt root"), strings.HasPrefix(m, "invalid validator root"), strings.HasPrefix(m, "invalid staking root"),
 		strings.HasPrefix(m, "nonce too"), strings.HasPrefix(m, "invalid gas rewards"), strings.Contains(m, "insufficient"), strings.Contains(m, "gas limit reached"):
 		return eBadState
-	case strings.HasPrefix(m, "missing trie node"):
+	case strings.Contains(m, "missing trie node"):
 		return eStateMissing
 	case m == "missing parent":
 		return eMissingParent
@@ -278,7 +280,14 @@ func (w *world) judge(bc *core.BlockChain, db *logDB) []string {
 		}
 		id := w.blockID[h]
 		if id >= 2 && int(id-2) < len(w.specs) && !w.valid(int(id-2)) {
-			bad = append(bad, "invalid-block-canonical")
+			// which kind: the block itself or an ancestor is ...
+			kind := "bad-signature block"
+			for i := int(id - 2); i >= 0; i = w.specs[i].Parent {
+				if w.specs[i].HV == hvBadCons || w.specs[i].BV != bvGood {
+					kind = "block failing the consensus-field, body or state check"
+				}
+			}
+			bad = append(bad, "invalid-block-canonical: "+kind)
 			break
 		}
 	}
@@ -358,14 +367,17 @@ func (w *world) reference(c Case, n int, further *types.Block) uint64 {
 	if err != nil {
 		panic(err)
 	}
-	defer bc.Stop()
 	for j := 0; j < n; j++ {
 		if code, _ := insert(bc, w.batch(c.Batches[j])); code == ePanic {
-			return 0
+			return 0 // (a panicking import leaves chainMu locked: the node cannot be stopped)
 		}
 	}
-	insert(bc, types.Blocks{further})
-	return w.blockID[bc.CurrentBlock().Hash()]
+	code, _ := insert(bc, types.Blocks{further})
+	id := w.blockID[bc.CurrentBlock().Hash()]
+	if code != ePanic {
+		bc.Stop()
+	}
+	return id
 }
 
 func (w *world) run(c Case, res *vf.Result, hits *[]interface{}) []stepRes {
@@ -375,7 +387,12 @@ func (w *world) run(c Case, res *vf.Result, hits *[]interface{}) []stepRes {
 	if err != nil {
 		panic(err)
 	}
-	defer func() { bc.Stop() }()
+	panicked := false
+	defer func() {
+		if !panicked {
+			bc.Stop()
+		}
+	}()
 	var out []stepRes
 	addHit := func(what string, step, crash int, note string) {
 		res.Count("ORACLE " + what)
@@ -424,6 +441,7 @@ func (w *world) run(c Case, res *vf.Result, hits *[]interface{}) []stepRes {
 		db.log, db.snaps = nil, nil
 		sr.Obs = w.abstractDB(db.dump(), bc.CurrentBlock().Hash())
 		if sr.Err == ePanic {
+			panicked = true
 			addHit("panic during import", j, 0, sr.Panic)
 			out = append(out, sr)
 			return out
@@ -448,6 +466,9 @@ func (w *world) run(c Case, res *vf.Result, hits *[]interface{}) []stepRes {
 			where := "crash: "
 			if cr.Mid {
 				where = "crash-in-head-switch: "
+			} else if last := sr.Log[k][len(sr.Log[k])-1]; strings.HasPrefix(last, "WBody") || strings.HasPrefix(last, "WHNum") {
+				where = "crash-in-block-write: " // a body without its header is on disk
+				res.Count("crash-points in block write")
 			}
 			cdb := restore(snap)
 			cbc, err := newChainOn(w, cdb)
@@ -471,12 +492,15 @@ func (w *world) run(c Case, res *vf.Result, hits *[]interface{}) []stepRes {
 				res.Count("crash-points where the restarted head differs from the crash-free head")
 			}
 			var pm string
+			cpanic := false
 			cr.RErr, pm = insert(cbc, bl)
 			cr.RHead = w.blockID[cbc.CurrentBlock().Hash()]
 			if cr.RErr == ePanic {
+				cpanic = true
 				addHit(where+"panic when the interrupted batch is offered again", j, k+1, pm)
 			} else if further != nil {
 				if code, pm := insert(cbc, types.Blocks{further}); code == ePanic {
+					cpanic = true
 					addHit(where+"panic when the further block is offered", j, k+1, pm)
 				}
 				cr.FHead = w.blockID[cbc.CurrentBlock().Hash()]
@@ -488,7 +512,9 @@ func (w *world) run(c Case, res *vf.Result, hits *[]interface{}) []stepRes {
 					}
 				}
 			}
-			cbc.Stop()
+			if !cpanic {
+				cbc.Stop()
+			}
 			sr.Crash = append(sr.Crash, cr)
 		}
 		out = append(out, sr)
@@ -701,9 +727,17 @@ func main() {
 	out := flag.String("out", ".", "")
 	corpus := flag.String("corpus", "/verif/corpus/C11", "")
 	file := flag.String("file", "", "")
+	wd := flag.Int("watchdog", 1500, "")
 	flag.Parse()
 	params.InitNetworkId(params.NetworkIdForTestCase)
 	logging.Root().SetHandler(logging.DiscardHandler())
+	go func() { // watchdog: a hung import must fail loudly, not hang the check
+		time.Sleep(time.Duration(*wd) * time.Second)
+		buf := make([]byte, 1<<16)
+		n := runtime.Stack(buf, true)
+		fmt.Fprintf(os.Stderr, "c11: watchdog after %d s\n%s\n", *wd, buf[:n])
+		os.Exit(3)
+	}()
 	switch mode {
 	case "gen":
 		gen(*seed, *n, *out, *corpus)
